@@ -1,7 +1,7 @@
 (* C17 — Data loading returns every row once, identically across modes and formats.
    Statements only; every proof is `exact <lemma>`. *)
 From Coq Require Import ZArith List Bool Lia.
-From Sky Require Import Result PyList G_load M_Load S_Load P_Load P_LoadDs P_LoadFiles P_LoadRen P_LoadE2E P_LoadFmt P_LoadPq.
+From Sky Require Import Result PyList G_load M_Load S_Load P_Load P_LoadDs P_LoadFiles P_LoadRen P_LoadE2E P_LoadFmt P_LoadPq P_LoadAudit.
 Import ListNotations.
 Open Scope Z_scope.
 
@@ -49,6 +49,7 @@ Theorem C17_modes : forall files o,
 Proof. exact modes_agree. Qed.
 Print Assumptions C17_modes.
 
+(* holds through the regenerated kernel mode_default_time (`efficiency_mode = 'time'` when None) *)
 Theorem C17_default_mode : forall files o, npy_load MNone files o = npy_load MTime files o.
 Proof. exact mode_none_is_time. Qed.
 Print Assumptions C17_default_mode.
@@ -191,7 +192,9 @@ Proof.
 Qed.
 Print Assumptions C17_files_guard_refuted.
 
-(* every row exactly once: each column has as many cells as the files have rows *)
+(* A fact about the SPECIFICATION table only (spec_col is total: an absent field would be a zero column of
+   the right length); the statement about the LOADER's result, with the presence of the field in every file,
+   is C17_files_rows_loader below. *)
 Theorem C17_files_row_count : forall f0 rest o fname dt v,
   In (fname, (dt, v)) (spec_load_files f0 rest o) ->
   length v = fold_right (fun f a => (length (f_rows f) + a)%nat) O (f0 :: rest).
@@ -398,3 +401,97 @@ Proof.
   - cbn. repeat constructor; cbn; intuition discriminate.
   - eexists. split; vm_compute; reflexivity.
 Qed.
+
+(* ======================================================================
+   Audit follow-up. *)
+
+(* The re-open is semantically active in the model: `ver k` is what the k-th
+   np.load of the file returns.  If the file does not change while it is loaded,
+   the memory-efficient loader returns the specified table for every block size. *)
+Theorem C17_memory_file_versions : forall bs f o (ver : Z -> list (list Z)),
+  wf_file f -> bs <> 0 -> (forall k, ver k = f_rows f) ->
+  load_file_mem_ver bs (f_schema f) ver o =
+    Ok (map (fun p => (fst p, (spec_dtype o (fst p) (snd p), spec_col f (fst p))))
+            (spec_kept o (f_schema f)),
+        spec_opens (zlen (f_rows f)) bs).
+Proof. exact load_mem_ver_spec. Qed.
+Print Assumptions C17_memory_file_versions.
+
+(* that hypothesis is needed: when the content differs between opens the rows of
+   different versions are mixed (block size 2: rows 0 from open 1, rows 1-2 from
+   open 2, row 3 from open 3) — the result is neither version *)
+Theorem C17_reopen_observable :
+  exists sch ver o t n,
+    load_file_mem_ver 2 sch ver o = Ok (t, n) /\
+    t = [(0, (3, [10; 21; 22; 33]))] /\ n = 3 /\
+    (forall k, load_file_time (mkFile sch (ver k)) o <> Ok (t, 1)).
+Proof.
+  exists [(0, 3)], (fun k => [[10 * k]; [10 * k + 1]; [10 * k + 2]; [10 * k + 3]]), (mkOpts None [] []),
+         [(0, (3, [10; 21; 22; 33]))], 3.
+  repeat split; try (vm_compute; reflexivity).
+  intros k H. cbv in H. injection H as H0 H1 H2 H3. lia.
+Qed.
+Print Assumptions C17_reopen_observable.
+
+(* only MEMBERSHIP of the keep list matters to the loaders (Dataset.load_data builds
+   it with list(set(...)), whose order is arbitrary): two keep lists with the same
+   members give the same table or the same error, in every mode *)
+Theorem C17_keep_membership : forall mode files k1 k2 c e,
+  Forall (fun p => match p with Some f => wf_file f | None => True end) files ->
+  (forall n, zmem n k1 = zmem n k2) ->
+  match npy_load mode files (mkOpts (Some k1) c e), npy_load mode files (mkOpts (Some k2) c e) with
+  | Ok (t, _), Ok (t', _) => t = t'
+  | Err e1, Err e2 => e1 = e2
+  | _, _ => False
+  end.
+Proof. exact keep_membership. Qed.
+Print Assumptions C17_keep_membership.
+
+(* MC counterpart of C17_required_missing (ANALYSIS_EXP | ANALYSIS_MC = 12) *)
+Theorem C17_required_missing_mc : forall ds o prep d0 d1 t n m,
+  load_data ds o = Ok d0 -> prep d0 = Ok d1 -> dd_mc d1 = Some t ->
+  In (n, m) (dict_merge (d_cfg_fields ds) (d_ds_fields ds)) -> Z.land m 12 <> 0 ->
+  ~ In n (tnames t) ->
+  exists e, load_and_prepare ds o prep = Err e.
+Proof. exact required_missing_is_error_mc. Qed.
+Print Assumptions C17_required_missing_mc.
+
+(* a missing file is an error for parquet too, and at the Dataset level (exp or mc
+   list, every format, every mode, load_data and load_and_prepare_data) *)
+Theorem C17_missing_file_parquet : forall files o, In None files -> exists e, pq_load files o = Err e.
+Proof. exact pq_missing_file. Qed.
+Print Assumptions C17_missing_file_parquet.
+
+Theorem C17_missing_file_dataset : forall ds o,
+  In None (d_exp_files ds) \/ In None (d_mc_files ds) ->
+  (exists e, load_data ds o = Err e) /\
+  (forall prep, exists e, load_and_prepare ds o prep = Err e).
+Proof. exact load_data_missing_file. Qed.
+Print Assumptions C17_missing_file_dataset.
+
+(* every row exactly once, for the LOADER's result: each returned column belongs to
+   a field that is in every file, is the concatenation of the files' columns in file
+   order and has as many cells as the files have rows *)
+Theorem C17_files_rows_loader : forall mode f0 rest o t n fname dt v,
+  mode <> MBad -> wf_file f0 ->
+  (forall f, In f rest -> wf_file f /\
+     forall p, In p (spec_kept o (f_schema f0)) ->
+               zmem (fst p) (map fst (spec_kept o (f_schema f))) = true) ->
+  npy_load mode (map Some (f0 :: rest)) o = Ok (t, n) ->
+  In (fname, (dt, v)) t ->
+  length v = fold_right (fun f a => (length (f_rows f) + a)%nat) O (f0 :: rest)
+  /\ v = concat (map (fun f => spec_col f fname) (f0 :: rest))
+  /\ (forall f, In f (f0 :: rest) -> In fname (map fst (f_schema f))).
+Proof. exact files_rows_loader. Qed.
+Print Assumptions C17_files_rows_loader.
+
+(* the real block size: a 4097-row file crosses the 4096-row re-open block; both
+   modes agree and the memory-efficient loader opens the file 1 + ceil(4097/4096) = 3 times *)
+Example C17_block_crossing_4097 :
+  let f := synth_file [(0, 3); (1, 1)] [(5, 1); (0, 2)] 4097 in
+  let o := mkOpts (Some [1; 0]) [(3, 2)] [1] in
+  match load_file_mem f o, load_file_time f o with
+  | Ok (t, n), Ok (t', n') => t = t' /\ n = 3 /\ n' = 1 /\ map (fun c : col => zlen (snd (snd c))) t = [4097; 4097]
+  | _, _ => False
+  end.
+Proof. vm_compute. repeat split; reflexivity. Qed.
